@@ -101,12 +101,13 @@ RemoveDirAllAt(fs, key) ==
 (* refuse an existing file.  A zero-length leftover may be completed.      *)
 (* Returns the set of results the contract admits in this state.           *)
 (***************************************************************************)
-WriteAdmits(fs, key, mode) ==
-    LET st == StateOf(fs, key) IN
+WriteAdmitsIn(st, mode) ==
     IF st = "nodir" THEN {"NotFound"}
     ELSE IF mode = "new" /\ st \in {"garbage", "ok"} THEN {"AlreadyExists"}
     ELSE IF mode = "new" /\ st = "empty" THEN {"ok", "AlreadyExists"}
     ELSE {"ok"}
+
+WriteAdmits(fs, key, mode) == WriteAdmitsIn(StateOf(fs, key), mode)
 
 (***************************************************************************)
 (* One storage verb with its observed result.  A verb that returned an     *)
